@@ -2,6 +2,7 @@ import GeoVerif.Corr.Proto
 import GeoVerif.Model.VPTree
 import GeoVerif.Model.GeodProj
 import GeoVerif.Model.IntersectFix
+import GeoVerif.Model.IntersectSearch
 /-!
 Correspondence for C17.
 
@@ -12,7 +13,11 @@ Correspondence for C17.
   metrics the tree must satisfy the executable `TreeInv` (`checkInv`).
 * `azeq_*`, `gnom_fwd`, `cass_fwd`: the wrapper models of `Model/GeodProj.lean` evaluated in binary64 on the kernel values
   (`Geodesic::Inverse/Direct` outputs obtained by the harness) against the projection classes.
-* `ix_*`, `gnom_rev`, `cass_rev`, `nn_bulk`, `nn_geo`, `nn_loadraw`: judged by the harness oracles on the implementation.
+* `ixs_*`: the kernel-parametric model of the Intersect search bookkeeping (`Model/IntersectSearch.lean`) run on the tables of
+  `Basic` / `Spherical` / `ConjugateDist` values the harness obtained from the private members of the real object: result,
+  coincidence indicator, segmode, the whole list of `All` and the five diagnostic counters must be reproduced; the comparators
+  `SetComp` / `RankPoint` / `Dist` and the constructor's constants are compared directly.
+* `ix_*`, `tl_*`, `gnom_rev`, `cass_rev`, `nn_bulk`, `nn_geo`, `nn_stats`, `nn_loadraw`: judged by the harness oracles on the implementation.
 -/
 namespace GeoVerif.Corr.C17
 open GeoVerif GeoVerif.Proto GeoVerif.VPTree
@@ -305,15 +310,204 @@ def handleIxm (op : String) (args res : List String) : Option Verdict :=
     | _, _ => .bad "parse"
   | _ => none
 
+
+/-! ## Intersect: the search bookkeeping (`Model/IntersectSearch.lean`) on the kernel values of the real object -/
+section Ixs
+open GeoVerif.IntersectFix GeoVerif.IntersectSearch
+
+/-- a tiny token parser -/
+abbrev P := StateT (List String) Option
+def tok : P String := fun s => match s with | [] => none | t :: r => some (t, r)
+def pF : P Float := do let t ← tok; match pfl t with | some x => pure x | none => failure
+def pI : P Int := do let t ← tok; match parseI t with | some x => pure x | none => failure
+def pN : P Nat := do let i ← pI; if i < 0 then failure else pure i.toNat
+def pLit (l : String) : P Unit := do let t ← tok; if t == l then pure () else failure
+def pRep {β : Type} (p : P β) : Nat → P (List β)
+  | 0 => pure []
+  | n + 1 => do let x ← p; let r ← pRep p n; pure (x :: r)
+def pXP : P (XP Float) := do let x ← pF; let y ← pF; let c ← pI; pure ⟨x, y, c⟩
+def pEnd : P Unit := fun s => match s with | [] => some ((), []) | _ => none
+
+/-- table entry: start, `Basic(start)`, iterations -/
+structure BE where
+  s : XP Float
+  b : XP Float
+  its : Nat
+def pBE : P BE := do let sx ← pF; let sy ← pF; let b ← pXP; let n ← pN; pure ⟨⟨sx, sy, 0⟩, b, n⟩
+def pTable (tag : String) : P (List BE) := do pLit tag; let n ← pN; pRep pBE n
+def pConsts : P (Consts Float) := do
+  pLit "C"; let d ← pF; let t1 ← pF; let delta ← pF; let d1 ← pF; let d2 ← pF; let d3 ← pF; let tol ← pF
+  pure { d := d, t1 := t1, delta := delta, d1 := d1, d2 := d2, d3 := d3, tol := tol }
+
+def nearXY (a b : XP Float) : Bool :=
+  let sc := 1 + Float.abs a.x + Float.abs a.y
+  (a.x == b.x || Float.abs (a.x - b.x) ≤ 1e-15 * sc) && (a.y == b.y || Float.abs (a.y - b.y) ≤ 1e-15 * sc)
+/-- a start the table does not contain gives the sentinel `c = 99` (and the comparison with the implementation fails) -/
+def nanXP : XP Float := ⟨0.0 / 0.0, 0.0 / 0.0, 99⟩
+def findBE (t : List BE) (s : XP Float) : Option BE :=
+  match t.find? (fun e => e.s.x == s.x && e.s.y == s.y) with
+  | some e => some e
+  | none => t.find? (fun e => nearXY e.s s)
+def lookupB (t : List BE) (s : XP Float) : XP Float := match findBE t s with | some e => e.b | none => nanXP
+def lookupIts (t : List BE) (s : XP Float) : Nat := match findBE t s with | some e => e.its | none => 0
+def sumIts (t : List BE) (vis : List (XP Float)) : Nat := (vis.map (lookupIts t)).foldl (· + ·) 0
+
+def sameF (a b : Float) : Bool := a == b || (a.isNaN && b.isNaN) || Float.abs (a - b) ≤ 4e-16 * (Float.abs a + Float.abs b)
+def sameXP (a b : XP Float) : Bool := sameF a.x b.x && sameF a.y b.y && a.c == b.c
+def shXP (p : XP Float) : String := s!"({shw p.x},{shw p.y};c={p.c})"
+def shO : Option (XP Float) → String | none => "unset" | some p => shXP p
+
+def run {β : Type} (p : P β) (toks : List String) : Option β := (p toks).map (·.1)
+
+def hConsts (args res : List String) : Verdict :=
+  match (args.take 2).mapM pfl, run (do let v ← pRep pF 13; let n ← pN; pEnd; pure (v, n)) res with
+  | some [a, f], some ([d, t1, t2, t3, t4, t5, d1, d2, d3, delta, tol, eps, rR], numit) =>
+    let (m1, m2, m3) := derived (α := Float) t2 t3 t4 delta
+    let piF : Float := RealLike.pi
+    let tb := a * (1 - f) * piF
+    let rel (x y : Float) : Bool := Float.abs (x - y) ≤ 1e-13 * Float.abs y
+    let probs : List String :=
+      (if m1 == d1 && m2 == d2 && m3 == d3 then [] else [s!"_d1,_d2,_d3 = {shw d1},{shw d2},{shw d3}, defining expressions give {shw m1},{shw m2},{shw m3}"]) ++
+      (if ctorOk t1 d1 d2 d3 then [] else ["the constructor's sanity check fails on the constants of a constructed object"]) ++
+      (if numit == Gen.IntersectC.numit then [] else [s!"numit_ = {numit}, translator extracted {Gen.IntersectC.numit}"]) ++
+      (if d == rR * piF then [] else ["_d is not pi _rR"]) ++
+      (if eps == 3 * dblEps then [] else ["_eps is not 3 epsilon"]) ++
+      (if rel (tol * tol * tol * tol) (d * d * d * d * dblEps * dblEps * dblEps) then [] else ["_tol is not _d epsilon^(3/4)"]) ++
+      (if rel (delta * delta * delta * delta * delta) (d * d * d * d * d * dblEps) then [] else ["_delta is not _d epsilon^(1/5)"]) ++
+      (if f > 0 then (if t1 == tb && t4 == tb then [] else ["oblate: _t1 = _t4 = pi b expected"])
+       else (if t2 == tb && t3 == t5 then [] else ["prolate/sphere: _t2 = pi b and _t3 = _t5 expected"])) ++
+      (if 0 < t1 && 0 < delta && delta < d1 && delta < d2 then [] else ["ordering 0 < _delta < _d1, _d2 violated"])
+    if probs.isEmpty then .ok else .bad ("Intersect constants: " ++ "; ".intercalate probs)
+  | _, _ => .bad "parse"
+
+def b2i (b : Bool) : Int := if b then 1 else 0
+
+def hComp (args res : List String) : Verdict :=
+  match args.mapM pfl, res with
+  | some [delta, px, py, qx, qy, p0x, p0y], [e1, e2, l1, l2, r1, r2, dh, d0h] =>
+    let p : XP Float := ⟨px, py, 0⟩; let q : XP Float := ⟨qx, qy, 0⟩; let p0 : XP Float := ⟨p0x, p0y, 0⟩
+    let m := [b2i (ceq delta p q), b2i (ceq delta q p), b2i (clt delta p q), b2i (clt delta q p), b2i (rlt p0 p q), b2i (rlt p0 q p)]
+    match [e1, e2, l1, l2, r1, r2].mapM parseI, pfl dh, pfl d0h with
+    | some im, some d, some d0 =>
+      if im != m then .bad s!"SetComp::eq / SetComp::operator() / RankPoint: impl {showInts im} model {showInts m}"
+      else if !(d == dist p p0 || (d.isNaN && (dist p p0).isNaN)) || !(d0 == dist0 p || (d0.isNaN && (dist0 p).isNaN)) then .bad s!"Intersect::Dist: impl {shw d} {shw d0} model {shw (dist p p0)} {shw (dist0 p)}"
+      else .ok
+    | _, _, _ => .bad "parse"
+  | _, _ => .bad "parse"
+
+def hBasic (args res : List String) : Verdict :=
+  match (args.drop 9).mapM pfl, run (do
+      let tol ← pF; let n ← pN
+      let tr ← pRep (do let q ← pXP; let dq ← pXP; pure (q, dq)) n
+      pLit "R"; let r ← pXP; let its ← pN; pEnd; pure (tol, tr, r, its)) res with
+  | some [sx, sy], some (tol, tr, r, its) =>
+    -- exact keys: the model forms the trial points with the same additions as the code
+    let sph : XP Float → XP Float := fun q => match tr.find? (fun e => e.1.x == q.x && e.1.y == q.y && e.1.c == q.c) with | some e => e.2 | none => nanXP
+    let (m, n) := basic sph tol ⟨sx, sy, 0⟩
+    if sameXP m r && n == its then .ok
+    else .bad s!"Intersect::Basic: impl {shXP r} after {its} iterations, model of the iteration skeleton on the Spherical values {shXP m} after {n}"
+  | _, _ => .bad "parse"
+
+def hClosest (args res : List String) : Verdict :=
+  match (args.drop 9).mapM pfl, run (do
+      let C ← pConsts; let t ← pTable "T"; pLit "R"; let r ← pXP; let c1 ← pN; let c2 ← pN; let c0 ← pN; pEnd; pure (C, t, r, c1, c2, c0)) res with
+  | some [p0x, p0y], some (C, t, r, c1, c2, c0) =>
+    let o := closestInt C (lookupB t) ⟨p0x, p0y, 0⟩
+    match o.q with
+    | none => .bad "model of ClosestInt returns the unset point"
+    | some m =>
+      if sameXP m r && o.visited.length == c1 && o.nchange == c2 && sumIts t o.visited == c0 then .ok
+      else .bad s!"Intersect::Closest: impl {shXP r} NumBasic+{c1} NumChange+{c2} NumInverse+{c0}; model of ClosestInt on the Basic values: {shXP m} {o.visited.length} {o.nchange} {sumIts t o.visited}"
+  | _, _ => .bad "parse"
+
+def fInf : Float := 1.0 / 0.0
+
+def hNext (res : List String) : Verdict :=
+  match run (do
+      let C ← pConsts; let t ← pTable "T"; pLit "J"; let cm ← pF; let cp ← pF
+      pLit "R"; let r ← pXP; let c1 ← pN; let c2 ← pN; let c0 ← pN; pEnd; pure (C, t, cm, cp, r, c1, c2, c0)) res with
+  | some (C, t, cm, cp, r, c1, c2, c0) =>
+    let o := nextInt C (lookupB t) (fun s3 => if s3 < 0 then cm else cp) fInf
+    if sameXP o.q r && o.visited.length == c1 && o.nchange == c2 && sumIts t o.visited == c0 then .ok
+    else .bad s!"Intersect::Next: impl {shXP r} NumBasic+{c1} NumChange+{c2} NumInverse+{c0}; model of NextInt on the Basic / ConjugateDist values: {shXP o.q} {o.visited.length} {o.nchange} {sumIts t o.visited}"
+  | none => .bad "parse"
+
+def hSegment (res : List String) : Verdict :=
+  match run (do
+      let C ← pConsts; pLit "S"; let sx ← pF; let sy ← pF; let t ← pTable "T"; let k ← pTable "K"
+      pLit "R"; let r ← pXP; let sm ← pI; let c1 ← pN; let c2 ← pN; let c3 ← pN; let c4 ← pN; let c0 ← pN; pEnd
+      pure (C, sx, sy, t, k, r, sm, c1, c2, c3, c4, c0)) res with
+  | some (C, sx, sy, t, k, r, sm, c1, c2, c3, c4, c0) =>
+    let tk := t ++ k
+    match segmentInt C (lookupB tk) sx sy with
+    | none => .bad "model of SegmentInt: ClosestInt returns the unset point"
+    | some o =>
+      let n1 := o.closest.visited.length + o.corners.length
+      let n0 := sumIts tk o.closest.visited + sumIts tk o.corners
+      if sameXP o.q r && o.segmode == sm && n1 == c1 && o.closest.nchange == c2 && o.corners.length == c3 && (if o.override then 1 else 0) == c4 && n0 == c0 then .ok
+      else .bad s!"Intersect::Segment: impl {shXP r} segmode {sm} NumBasic+{c1} NumChange+{c2} NumCorner+{c3} NumOverride+{c4} NumInverse+{c0}; model of SegmentInt: {shXP o.q} segmode {o.segmode} {n1} {o.closest.nchange} {o.corners.length} {if o.override then 1 else 0} {n0}"
+  | none => .bad "parse"
+
+/-- is the comparator a strict weak order on these points (transitive, with transitive incomparability)? -/
+def swoOn (delta : Float) (pts : List (XP Float)) : Bool :=
+  pts.all fun p => pts.all fun q => pts.all fun r =>
+    (!(clt delta p q && clt delta q r) || clt delta p r) &&
+    (!(ceq delta p q && ceq delta q r) || ceq delta p r)
+
+def hAll (args res : List String) : Verdict :=
+  if res == ["skip"] then .skip "radius beyond the modelled range" else
+  match (args.drop 9).mapM pfl, run (do
+      let C ← pConsts; pLit "M"; let m ← pN; let t ← pTable "T"; pLit "J"; let nj ← pN
+      let js ← pRep (do let s0 ← pF; let s3 ← pF; let v ← pF; pure (s0, s3, v)) nj
+      pLit "R"; let n ← pN; let v ← pRep pXP n; let c1 ← pN; let c0 ← pN; pEnd; pure (C, m, t, js, v, c1, c0)) res with
+  | some [maxdist, p0x, p0y], some (C, m, t, js, v, c1, c0) =>
+    let md : Float := if maxdist > 0 then maxdist else 0
+    let mm := Float.ceil ((md + C.delta) / C.d3)
+    if mm != Float.ofNat m then .bad s!"AllInt0: harness used m = {m}, ceil(maxdistx / _d3) = {shw mm}" else
+    let conj2 : Float → Float → Float := fun s0 s3 =>
+      -- exact keys first (the model forms s0 and s3 with the same additions as the code)
+      match js.find? (fun e => e.1 == s0 && e.2.1 == s3) with
+      | some e => e.2.2
+      | none =>
+        match js.find? (fun e => Float.abs (e.1 - s0) ≤ 1e-9 * (1 + Float.abs s0) && Float.abs (e.2.1 - s3) ≤ 1e-9 * (1 + Float.abs s3)) with
+        | some e => e.2.2 | none => 0.0 / 0.0
+    let o := allInt0 C (lookupB t) conj2 md ⟨p0x, p0y, 0⟩ m 1000
+    let okList := o.res.length == v.length && (o.res.zip v).all (fun e => sameXP e.1 e.2)
+    if okList && o.visited.length == c1 && sumIts t o.visited == c0 && !o.exhausted then .ok
+    else
+      -- every point that can enter the set: kernel answers, their centred images
+      let cand := (t.map (·.b)) ++ (t.map fun e => fixc (α := Float) ⟨p0x, p0y, 0⟩ e.b) ++ o.res ++ v
+      if !swoOn C.delta cand then .skip "SetComp is not a strict weak order on the points of this query: the behaviour of std::set is unspecified (the result is judged by the oracles all-duplicate / all-complete)"
+      else .bad s!"Intersect::All: impl {v.length} points {" ".intercalate (v.map shXP)} NumBasic+{c1} NumInverse+{c0}; model of AllInt0 on the Basic / ConjugateDist values: {o.res.length} points {" ".intercalate (o.res.map shXP)} {o.visited.length} {sumIts t o.visited}{if o.exhausted then " (conjugate-point loop ran out of fuel)" else ""}"
+  | _, _ => .bad "parse"
+
+def handleIxs (op : String) (args res : List String) : Option Verdict :=
+  match op with
+  | "ixs_consts" => some (hConsts args res)
+  | "ixs_ctor" => some (match res with
+      | "ok" :: rest => hConsts args rest
+      | ["E"] => .skip "constructor threw (outside the documented range: judged by the harness)"
+      | _ => .bad "parse")
+  | "ixs_comp" => some (hComp args res)
+  | "ixs_basic" => some (hBasic args res)
+  | "ixs_closest" => some (hClosest args res)
+  | "ixs_next" => some (hNext res)
+  | "ixs_segment" => some (hSegment res)
+  | "ixs_all" => some (hAll args res)
+  | _ => none
+end Ixs
+
 def handle (op : String) (args res : List String) : Option Verdict :=
   match op with
   | "nn_search" => some (handleSearch args res)
   | "nn_load" => some (handleLoad args res)
   | "nn_bin" => some (handleBin res)
   | "nn_init" => some (handleInit args res)
-  | "nn_bulk" | "nn_geo" | "nn_loadraw" | "nn_loaddag" | "nn_loadtrunc" => some (.skip "brute-force / robustness oracle in the harness")
+  | "nn_bulk" | "nn_geo" | "nn_loadraw" | "nn_loaddag" | "nn_loadtrunc" | "nn_stats" => some (.skip "brute-force / robustness oracle in the harness")
   | _ =>
     if op.startsWith "ixm_" then handleIxm op args res
+    else if op.startsWith "ixs_" then handleIxs op args res
+    else if op.startsWith "tl_" then some (.skip "command-line front end: compared character for character with the library by the harness")
     else if op.startsWith "ix_" then some (.skip "Intersect: oracles in the harness (no model of the tiling search)")
     else handleProj op args res
 
